@@ -295,6 +295,8 @@ pub struct RunConfig {
     pub replay_dir: String,
     pub known_findings: String,
     pub digest_only: bool,
+    /// evidence file of the same property from another build configuration, merged into this one
+    pub merge_part: Option<String>,
     pub max_wall_s: u64,
 }
 
@@ -547,6 +549,29 @@ pub fn run_world<W: World>(world: Arc<W>, cfg: &RunConfig) -> RunReport {
         coverage.insert("violations_detail".into(), Value::Array(violation_json));
         coverage.insert("known_findings_matched".into(), json!(known_lines));
         world.extra_coverage(&cov, &mut coverage);
+        let mut total_violations = violations;
+        if let Some(part) = &cfg.merge_part {
+            match std::fs::read_to_string(part).ok().and_then(|t| serde_json::from_str::<Value>(&t).ok()) {
+                Some(p) => {
+                    let pc = p.get("coverage").cloned().unwrap_or(Value::Null);
+                    let g = |k: &str| pc.get(k).and_then(|x| x.as_u64()).unwrap_or(0);
+                    let ev = coverage.get("evaluations").and_then(|x| x.as_u64()).unwrap_or(0) + g("evaluations");
+                    let di = coverage.get("distinct_nontrivial").and_then(|x| x.as_u64()).unwrap_or(0) + g("distinct_nontrivial");
+                    let ee = coverage.get("events_executed").and_then(|x| x.as_u64()).unwrap_or(0) + g("events_executed");
+                    coverage.insert("evaluations".into(), json!(ev));
+                    coverage.insert("distinct_nontrivial".into(), json!(di));
+                    coverage.insert("events_executed".into(), json!(ee));
+                    coverage.insert("evaluations_note".into(), json!("sum over the default-features build and the borsh build (the build is part of a case's identity)"));
+                    total_violations += p.get("violations").and_then(|x| x.as_i64()).unwrap_or(0);
+                    coverage.insert("borsh_build".into(), pc);
+                }
+                None => {
+                    eprintln!("harness error: cannot read evidence part {part}");
+                    std::process::exit(2);
+                }
+            }
+        }
+        let violations = total_violations;
         let doc = json!({
             "property_id": prop,
             "tier": cfg.tier.name(),
